@@ -659,6 +659,7 @@ package server
 //@   ensures [C05:id-lock-released] $held == old($held)
 //@   ensures [C04:acknowledged-id-commit-leaves-no-pending-id-transaction] result == nil ==> s.idtxn == nil
 //@   ensures [C04:acknowledged-id-commit-means-the-pending-id-transaction-was-committed] result == nil && old(s.idtxn) != nil ==> committedG
+//@   ensures [C04:the-id-transactions-of-other-stores-are-left-alone] forall o *Store :: o != s ==> o.idtxn == old(o.idtxn)
 //@   at call Commit#1 before
 //@     assert [C04:the-shared-id-transaction-is-committed-under-the-id-lock] $arg0 == s.idtxn && has($held, lockerAddr(s.idmux))
 //@   at call Commit#1
@@ -1058,16 +1059,20 @@ package server
 //@   at call Lock#1 before
 //@     assert [C05:dataset-locks-taken-in-name-order] forall d *Dataset :: has($held, addrOf(d.WriteLock)) ==> d.ID < cast(dataset, "*server.Dataset").ID
 //@   at call StoreEntitiesWithTransaction#1 before
-//@     assume ds != nil && ds.store == s && (ds.fullSyncStarted ==> ds.fullSyncSeen != nil) && (forall i int :: 0 <= i && i < len(entities) ==> entities[i] != nil)
+//@     assume [TRUSTED-data-invariant:registered-datasets-are-constructed-with-an-open-store-and-batches-hold-no-nil-entity] ds != nil && ds.store != nil && ds.store.database != nil && lockLevel(lockerAddr(ds.store.idmux)) == 4 && (ds.fullSyncStarted ==> ds.fullSyncSeen != nil) && (forall i int :: 0 <= i && i < len(entities) ==> entities[i] != nil)
 //@     assert [C04:all-datasets-written-in-one-transaction] txn == txnG
-//@   at call commitIDTxn#1
-//@     ghost idsCommittedG := $result == nil
+// the ids named by the data are asserted through each dataset's own store (ds.store), which for a contextual store (the
+// store a JavaScript transform works with) is NOT the receiver: the id transaction committed before the data must be
+// that of the datasets' store
+//@   at call commitIDTxn#1 before
+//@     assume [TRUSTED-data-invariant:registered-datasets-are-constructed-with-an-open-store] ds != nil && ds.store != nil && lockLevel(lockerAddr(ds.store.idmux)) == 4
+//@     assert [C04,C13:the-id-transaction-committed-is-that-of-the-written-datasets-own-store] $arg0 == ds.store
 //@   at call Commit#1 before
-//@     assert [C04:ids-committed-before-data] idsCommittedG && $arg0 == txnG
+//@     assert [C04:ids-committed-before-data] $arg0 == txnG && (forall n string :: has(datasets, n) ==> datasets[n].store.idtxn == nil)
 //@   at call updateDataset#1 before
 //@     assert [C19:a-datasets-counter-grows-by-its-own-number-of-first-seen-ids] newItemCount == updateCountsPerDataset[k] && has(updateCountsPerDataset, k)
 //@     ghost countedG := add(countedG, k)
-//@   at loop 4 exit
+//@   at loop 5 exit
 //@     assert [C19:every-written-dataset-had-its-counter-updated] forall n string :: has(updateCountsPerDataset, n) ==> has(countedG, n)
 //@     ghost allCountedG := true
 //@   at call UnixNano#1 before
@@ -1082,6 +1087,8 @@ package server
 //@     invariant forall l int :: has($held, l) ==> lockLevel(l) <= 2
 //@     invariant forall a int :: 0 <= a && a <= $i ==> has(datasets, datasetNames[a]) && datasets[datasetNames[a]] != nil && has($held, addrOf(datasets[datasetNames[a]].WriteLock))
 //@   loop 4
+//@     invariant forall n string :: visited(n) ==> datasets[n].store.idtxn == nil
+//@   loop 5
 //@     invariant forall n string :: visited(n) ==> has(countedG, n)
 //@     invariant !allCountedG
 
